@@ -77,6 +77,13 @@ func (hs *heightSub) SetHeight(height uint64) {
 // It can return errElapsedHeight, which means a requested height was already seen
 // and caller should get it elsewhere.
 func (hs *heightSub) Wait(ctx context.Context, height uint64) error {
+	return hs.WaitFor(ctx, height, nil)
+}
+
+// WaitFor is [Wait] for callers that looked the height up before calling it: once the caller is
+// registered as a waiter, `present` (if given) is asked again, so that a notification that
+// happened between the caller's lookup and the registration is not lost.
+func (hs *heightSub) WaitFor(ctx context.Context, height uint64, present func() bool) error {
 	if hs.Height() >= height {
 		return errElapsedHeight
 	}
@@ -99,6 +106,14 @@ func (hs *heightSub) Wait(ctx context.Context, height uint64) error {
 	}
 	sac.count++
 	hs.heightSubsLk.Unlock()
+
+	if present != nil && present() {
+		// it arrived meanwhile, and its notification may have been missed: don't wait for it
+		hs.heightSubsLk.Lock()
+		hs.notify(height, false)
+		hs.heightSubsLk.Unlock()
+		return nil
+	}
 
 	select {
 	case <-sac.signal:
